@@ -145,3 +145,36 @@ Proof.
       cbn [encode forallb]. rewrite (E _ B0), (E _ B1), (E _ B2), (E _ B3).
       rewrite IH; [reflexivity| simpl in Hn; lia | exact Hb3].
 Qed.
+
+(* the error-ignoring decoder agrees with the strict one on encoder output *)
+Lemma decode_partial_q_encode a : forall n l, (length l <= n)%nat -> is_bytes l ->
+  decode_partial_q a (encode a false l) = l.
+Proof.
+  induction n as [|n IH]; intros l Hn Hb.
+  - destruct l; [reflexivity|simpl in Hn; lia].
+  - destruct l as [|x [|y [|z l']]].
+    + reflexivity.
+    + inversion Hb as [|? ? Hx _]; subst.
+      destruct (sextet_bounds x 0 0 Hx) as (B0 & _ & _ & _ & B4 & _); try lia.
+      cbn [encode app decode_partial_q].
+      rewrite (dec_enc_char a _ B0), (dec_enc_char a _ B4). f_equal. lia.
+    + inversion Hb as [|? ? Hx Hb1]; subst. inversion Hb1 as [|? ? Hy _]; subst.
+      destruct (sextet_bounds x y 0 Hx Hy) as (B0 & B1 & _ & _ & _ & B5); try lia.
+      cbn [encode app decode_partial_q].
+      rewrite (dec_enc_char a _ B0), (dec_enc_char a _ B1), (dec_enc_char a _ B5).
+      f_equal; [|f_equal]; lia.
+    + inversion Hb as [|? ? Hx Hb1]; subst. inversion Hb1 as [|? ? Hy Hb2]; subst.
+      inversion Hb2 as [|? ? Hz Hb3]; subst.
+      destruct (sextet_bounds x y z Hx Hy Hz) as (B0 & B1 & B2 & B3 & _ & _).
+      cbn [encode decode_partial_q].
+      rewrite (dec_enc_char a _ B0), (dec_enc_char a _ B1), (dec_enc_char a _ B2), (dec_enc_char a _ B3).
+      rewrite IH; [| simpl in Hn; lia | exact Hb3].
+      rewrite q3_roundtrip by assumption. reflexivity.
+Qed.
+
+Theorem rawurl_partial_roundtrip l : is_bytes l -> rawurl_decode_partial (rawurl_encode l) = l.
+Proof.
+  intro Hb. unfold rawurl_decode_partial, rawurl_encode.
+  rewrite (encode_no_crlf Url false (length l)); auto.
+  apply (decode_partial_q_encode Url (length l)); auto.
+Qed.
